@@ -522,27 +522,7 @@ func TestC09Adversarial(t *testing.T) {
 	col := NewCollector("TestC09Adversarial",
 		"rapid: an offending client (polling/JSONP/WebSocket/WebTransport, revision 3/4) runs 1-10 steps drawn from: request bodies of arbitrary bytes / hostile constants (inflated or negative length prefixes, truncated binary framing, invalid UTF-8/base64, separators only, JSON oddities) under six content types, arbitrary WebSocket frames (reserved opcodes, lone continuations, unfinished fragments, 2^62 declared length, invalid UTF-8, unmasked) and raw WebTransport stream bytes, heartbeats of both directions in every phase, malformed query strings and methods, oversized declared/chunked bodies, upgrade candidates whose revision does not match the session's followed by upgrade and heartbeats, malformed WebTransport handshake packets, repeated probes, aborted requests, waits; next to it a canary session exchanges a message in both directions after every step; oracle: no handler panics (a panic in a reader/timer goroutine kills the test process and is attributed by the driver from the journal), the canary is never disturbed, the offender closes at most once, every handler returns once its client is gone and no goroutine is left when all clients are gone. non-trivial: a script with a mutated field the server did not refuse at admission").Use(t)
 	known := map[string]bool{sigNilPingTimer: isKnown("C09", sigNilPingTimer), sigWTNullHS: isKnown("C09", sigWTNullHS), sigV3LengthSpin: isKnown("C09", sigV3LengthSpin)}
-	rapid.Check(t, func(rt *rapid.T) {
-		c := genC09(rt, known, col)
-		journal("C09 %v", c)
-		var fail string
-		var stats map[string]bool
-		res := bubble(t, func() { fail, stats = runC09(c) })
-		var cl []string
-		for k := range stats {
-			cl = append(cl, k)
-		}
-		sort.Strings(cl)
-		nt := stats["mutated-body"] || stats["mutated-frame"] || stats["mismatched-candidate"] || stats["mutated-wt-handshake"] || stats["repeated-probe"] || stats["heartbeat-any-phase"]
-		col.Case(fmt.Sprint(c), nt, map[string]any{"case": clipStr(fmt.Sprint(c), 700)}, cl...)
-		res.rethrow()
-		if fail != "" {
-			rt.Fatalf("%v\n%s", clipStr(fmt.Sprint(c), 2000), clipStr(fail, 2500))
-		}
-		if res.Leak != "" {
-			rt.Fatalf("%v: goroutines left after every client had gone: %s", clipStr(fmt.Sprint(c), 1500), clipStr(res.Leak, 3000))
-		}
-	})
+	rapid.Check(t, propC09(t, col, known))
 	col.RequireClasses(t, "mutated-body", "mutated-frame", "mismatched-candidate", "mutated-wt-handshake", "repeated-probe", "heartbeat-any-phase", "offender-closed", "offender-survived")
 }
 
@@ -614,4 +594,29 @@ func TestC09WorkProportional(t *testing.T) {
 	}
 	demoFinding(t, col, "C09", sigV3LengthSpin, len(bad) > 0, strings.Join(bad, "; "))
 	_ = known
+}
+
+// propC09 is the property body of TestC09Adversarial, shared with the native fuzz target (rapid.MakeFuzz).
+func propC09(t *testing.T, col *Collector, known map[string]bool) func(rt *rapid.T) {
+	return func(rt *rapid.T) {
+		c := genC09(rt, known, col)
+		journal("C09 %v", c)
+		var fail string
+		var stats map[string]bool
+		res := bubble(t, func() { fail, stats = runC09(c) })
+		var cl []string
+		for k := range stats {
+			cl = append(cl, k)
+		}
+		sort.Strings(cl)
+		nt := stats["mutated-body"] || stats["mutated-frame"] || stats["mismatched-candidate"] || stats["mutated-wt-handshake"] || stats["repeated-probe"] || stats["heartbeat-any-phase"]
+		col.Case(fmt.Sprint(c), nt, map[string]any{"case": clipStr(fmt.Sprint(c), 700)}, cl...)
+		res.rethrow()
+		if fail != "" {
+			rt.Fatalf("%v\n%s", clipStr(fmt.Sprint(c), 2000), clipStr(fail, 2500))
+		}
+		if res.Leak != "" {
+			rt.Fatalf("%v: goroutines left after every client had gone: %s", clipStr(fmt.Sprint(c), 1500), clipStr(res.Leak, 3000))
+		}
+	}
 }
